@@ -12,6 +12,7 @@
 #include "vrt.h"
 #include <stdio.h>
 #include <string.h>
+#include <stdint.h>
 
 enum { P = 0, C = 1, G = 2, S = 3, NEWC = 4, NN = 5 };
 static nsync_note note[NN];
@@ -73,9 +74,21 @@ static void x_free (int i) {
 	vrt_note ("ret %d -", vrt_self ());
 }
 
+/* soundness at every observation: a note seen notified NOW has a cause NOW -- nsync_note_notify was called on it or on a note of its
+   creation path, or a deadline on that path has been reached on the virtual clock */
+static int64_t dabs[NN];           /* absolute deadline given at creation, INT64_MAX for none */
+static void check_cause (int i) {
+	int j;
+	int64_t now = vrt_now_ns ();
+	for (j = i; j >= 0; j = parent_of[j]) {
+		if (vrt_sh_get (NSTART (j)) || dabs[j] <= now) return;
+	}
+	vrt_fail ("C08", "note %d is observed notified at %lld although nsync_note_notify was called on no note of its path and no deadline on the path has passed", i, (long long) now);
+}
 static void observe (int i) {
 	long seen_before = vrt_sh_get (SEEN (i));   /* only observations that COMPLETED before this call started bind it */
 	int v = x_is_notified (i);
+	if (v) check_cause (i);
 	if (v) vrt_sh_set (SEEN (i), 1);
 	else if (seen_before) vrt_fail ("C08", "note %d was observed notified and is now observed un-notified", i);
 }
@@ -91,7 +104,7 @@ static void do_wait (int i, int timed) {
 	int r;
 	if (timed) dl = vrt_abs ((int64_t) vrt_rand (5) * 900 - 900);
 	r = x_wait (i, dl);
-	if (r) { vrt_sh_set (SEEN (i), 1); vrt_count ("wait_notified"); if (!x_is_notified (i)) vrt_fail ("C08", "wait said notified, poll says not"); }
+	if (r) { check_cause (i); vrt_sh_set (SEEN (i), 1); vrt_count ("wait_notified"); if (!x_is_notified (i)) vrt_fail ("C08", "wait said notified, poll says not"); }
 	else {
 		vrt_count ("wait_timeout");
 		if (!timed) vrt_fail ("C08", "wait without deadline returned 0");
@@ -105,15 +118,27 @@ static void t_free (void *a) { int i = (int) (long) a; x_free (i); vrt_sh_set (F
 static void t_newchild (void *a) {
 	int par = (int) (long) a;
 	nsync_time dl = vrt_rand (2) ? nsync_time_no_deadline : vrt_abs (3000);
-	note[NEWC] = x_new (par, dl);
+	dabs[NEWC] = nsync_time_cmp (dl, nsync_time_no_deadline) == 0 ? INT64_MAX : ts_ns (dl);
 	parent_of[NEWC] = par;
+	note[NEWC] = x_new (par, dl);
 	observe (NEWC);
 	vrt_count ("newchild");
 }
 static void t_busy_parent (void *a) {
 	int i = (int) (long) a, k;
+	int next_id = 4;          /* FAMILY 3: P, C, G, S are notes 0..3 and this thread is the only one that allocates afterwards */
 	for (k = 0; k < 4; k++) {
-		if (vrt_rand (2)) { nsync_note x = nsync_note_new (note[i], nsync_time_no_deadline); observe (i); nsync_note_free (x); }
+		if (vrt_rand (2)) {
+			nsync_note x;
+			int id = next_id++;     /* allocation order = the model's note id (announcements for the lock-step replay only) */
+			vrt_note ("call %d new %d none", vrt_self (), i);
+			x = nsync_note_new (note[i], nsync_time_no_deadline);
+			vrt_note ("ret %d %d", vrt_self (), x != NULL);
+			observe (i);
+			vrt_note ("call %d free %d", vrt_self (), id);
+			nsync_note_free (x);
+			vrt_note ("ret %d -", vrt_self ());
+		}
 		else observe (i);
 	}
 }
@@ -134,6 +159,7 @@ int main (void) {
 			/* expiry = min (own deadline, the parent's notification time at creation), a notified parent counting as zero --
 			   for EVERY note, also one whose own deadline has already passed (F12) */
 			int pn0 = parent_of[i] >= 0 ? x_is_notified (parent_of[i]) : 0, pn1, k, ok = 0;
+			dabs[i] = nsync_time_cmp (d[i], nsync_time_no_deadline) == 0 ? INT64_MAX : ts_ns (d[i]);
 			note[i] = x_new (parent_of[i], d[i]);
 			pn1 = parent_of[i] >= 0 ? x_is_notified (parent_of[i]) : 0;
 			for (k = 0; k < 2 && !ok; k++) {
@@ -178,8 +204,7 @@ int main (void) {
 		int j, anc_notified = 0, cause = 0;
 		if (note[i] == NULL || vrt_sh_get (FREED (i))) continue;
 		for (j = i; j >= 0; j = parent_of[j]) {
-			if (vrt_sh_get (NSTART (j))) cause = 1;
-			if (dl_of[j] >= 0 || (fam == 2 && j == P) || j == NEWC) cause = 1;   /* a deadline on the path may have been reached */
+			if (vrt_sh_get (NSTART (j)) || dabs[j] <= vrt_now_ns ()) cause = 1;
 			if (j != i && !vrt_sh_get (FREED (j)) && note[j] != NULL && vrt_sh_get (NSTART (j))) anc_notified = 1;
 			if (j != i && vrt_sh_get (FREED (j)) && vrt_sh_get (NSTART (j))) anc_notified = 0;
 		}
